@@ -10,7 +10,7 @@ CONSTANTS
   Wants <- Wants2
   Threads = {"t1", "t2"}
   MaxMsgs = 2
-  Bodies <- BodiesCore
+  Bodies <- BodiesQuick
   RecordHist = FALSE
 INVARIANTS
   TypeOK
